@@ -567,3 +567,14 @@ def c40(ctx):
         env["ASAN_OPTIONS"] = "detect_leaks=1"
     events = ctx.drive(cfg, cases, env=env, max_crashes=40)
     ctx.judge(ctx.validate("Trace_C40", events, floor=0.4), cases)
+
+
+@plan("C12")
+def c12(ctx):
+    ctx.rule = ("TLC enumerates number expressions: ~600 with an exact rational value (arithmetic and integer powers of 15 "
+                "rationals, rounding functions, max/min, perfect-power roots, functions at special points) and ~2500 "
+                "with irrational values (37 functions of rationals, constants and radicals, nested); eval_double in its "
+                "visitor, single-dispatch and default forms, evalf at 53 bits, eval_complex_double and the lambda visitor "
+                "are run on each; TLC validates the exact cases against the 53-bit quotient computed by long division "
+                "(module Dbl) and the mutual agreement of the evaluators on all cases, to 2^-40")
+    simple(ctx, "MC_C12", "Trace_C12", floor=0.5)
